@@ -92,6 +92,23 @@ static void run_case(void)
         put(l.output);
         put(h.output);
         put(h.input);
+        {
+            /* the same macros with compound argument expressions (exact splits: f1 + f2 == fc, t1 - t0 == ts): a macro
+               that does not parenthesise its parameters computes something else */
+            a_real f1 = fc / 2, f2 = fc - f1, t1 = ts * 2, t0 = ts;
+            int const exact = (f1 + f2 == fc) && (t1 - t0 == ts);
+            a_real fa = exact ? f1 : fc, fb = exact ? f2 : 0, ta = exact ? t1 : ts, tb = exact ? t0 : 0;
+            a_lpf l2 = A_LPF_2(fa + fb, ta - tb);
+            a_hpf h2 = A_HPF_2(fa + fb, ta - tb);
+            a_lpf l1 = A_LPF_1(l.alpha / 2 + l.alpha / 2);
+            a_hpf h1 = A_HPF_1(h.alpha / 2 + h.alpha / 2);
+            put(A_LPF_GEN(fa + fb, ta - tb));
+            put(A_HPF_GEN(fa + fb, ta - tb));
+            put(l2.alpha);
+            put(h2.alpha);
+            put(l1.alpha - l.alpha);
+            put(h1.alpha - h.alpha);
+        }
     }
     else { printf(" UNKNOWN-KIND"); }
 }
